@@ -124,8 +124,10 @@ macro_rules! interp {
                 let ob = match op {
                     Op::Push(r) => { v.push(mk(r)); Ob::Unit }
                     Op::Pop => Ob::Item(v.pop().map(|c| row_of(&c))),
-                    Op::Extend(rs) => { v.extend(rs.iter().map(mk)); Ob::Unit }
-                    Op::Collect(rs) => { v = rs.iter().map(mk).collect(); Ob::Unit }
+                    // every other time through an iterator without an exact size hint (`filter`: lower bound 0, `chain` of two halves, ...):
+                    // `Extend` / `FromIterator` must take what the iterator yields, whatever it announces
+                    Op::Extend(rs) => { match rs.len() % 3 { 0 => v.extend(rs.iter().map(mk)), 1 => v.extend(rs.iter().map(mk).filter(|_| true)), _ => v.extend(rs.iter().map(mk).take_while(|_| true)) } Ob::Unit }
+                    Op::Collect(rs) => { v = match rs.len() % 3 { 0 => rs.iter().map(mk).collect(), 1 => rs.iter().map(mk).filter(|_| true).collect(), _ => rs.iter().map(mk).skip_while(|_| false).collect() }; Ob::Unit }
                     Op::New(c) => { v = V::with_capacity(*c); Ob::Unit }
                     Op::Clear => { v.clear(); Ob::Unit }
                     Op::Drain(rg, sc) => {
